@@ -194,7 +194,8 @@ fn compare(what: &str, data: &[u8], order: Order, align: usize, got: Result<Vec<
             for x in &g {
                 dig.u64(x.kind as u64 ^ (x.n_type << 8));
                 if let Some(d) = x.desc {
-                    dig.u64(d.0 as u64);
+                    // an empty slice has no meaningful address (it may be a static): digest only its emptiness
+                    dig.u64(if d.1.wrapping_sub(d.0) == 0 { u64::MAX } else { d.0 as u64 });
                 }
             }
             g.len()
